@@ -77,6 +77,115 @@ class _Getattr(ast.NodeTransformer):
         return node
 
 
+class _Setattr(ast.NodeTransformer):
+    """statement `setattr(<x>, '<literal>', <v>)`  ->  `<x>.<literal> = <v>`"""
+
+    def visit_Expr(self, node):
+        c = node.value
+        if isinstance(c, ast.Call) and isinstance(c.func, ast.Name) and c.func.id == 'setattr' and len(c.args) == 3 \
+                and not c.keywords and isinstance(c.args[1], ast.Constant) and isinstance(c.args[1].value, str) \
+                and c.args[1].value.isidentifier():
+            return ast.copy_location(ast.Assign(
+                targets=[ast.Attribute(value=c.args[0], attr=c.args[1].value, ctx=ast.Store())], value=c.args[2]), node)
+        return node
+
+
+def expr_helpers(tree):
+    """module-level defs that are one expression: `def f(p...): [doc]; return <expr>` where every parameter occurs
+    exactly once in <expr>, which uses nothing but the parameters, constants and builtins"""
+    out = {}
+    for st in tree.body:
+        if isinstance(st, ast.FunctionDef) and not st.decorator_list and not st.args.vararg and not st.args.kwarg \
+                and not st.args.kwonlyargs and not st.args.defaults:
+            body = [x for x in st.body if not (isinstance(x, ast.Expr) and isinstance(x.value, ast.Constant))]
+            if len(body) == 1 and isinstance(body[0], ast.Return) and body[0].value is not None:
+                params = [a.arg for a in st.args.args]
+                names = [n.id for n in ast.walk(body[0].value) if isinstance(n, ast.Name)]
+                import builtins
+                if all(names.count(prm) == 1 for prm in params) and all(
+                        n in params or hasattr(builtins, n) for n in names) \
+                        and not any(isinstance(n, (ast.Lambda, ast.Await, ast.Yield, ast.NamedExpr)) for n in ast.walk(body[0].value)):
+                    out[st.name] = (params, body[0].value)
+    return out
+
+
+class _InlineExpr(ast.NodeTransformer):
+    """a call of an expression helper (see expr_helpers) with positional arguments -> its expression"""
+
+    def __init__(self, helpers):
+        self.helpers = helpers
+
+    def visit_Call(self, node):
+        self.generic_visit(node)
+        if isinstance(node.func, ast.Name) and node.func.id in self.helpers and not node.keywords \
+                and not any(isinstance(a, ast.Starred) for a in node.args):
+            params, expr = self.helpers[node.func.id]
+            if len(params) == len(node.args):
+                new = _Subst(dict(zip(params, node.args))).visit(copy.deepcopy(expr))
+                return ast.copy_location(new, node)
+        return node
+
+
+def vkey(n):
+    """a variable as main sees it: a local / global name, or one attribute of a settings object"""
+    if isinstance(n, ast.Name):
+        return n.id
+    if isinstance(n, ast.Attribute) and isinstance(n.value, ast.Name):
+        return n.value.id + '.' + n.attr
+    return None
+
+
+def eval_seq(node, assigns, depth=0):
+    """statically evaluate a sequence expression to the list of its element nodes: tuple / list literal, a
+    module-level name bound once to such an expression, tuple(...) / list(...), a + b, and a comprehension with one
+    `for <names> in <evaluable sequence>` (no condition) whose element is built from the loop names"""
+    if depth > 6:
+        raise Untranslated('sequence nested too deeply')
+    if isinstance(node, (ast.Tuple, ast.List)):
+        if any(isinstance(e, ast.Starred) for e in node.elts):
+            raise Untranslated('starred element')
+        return list(node.elts)
+    if isinstance(node, ast.Name):
+        if node.id not in assigns or assigns[node.id] is None:
+            raise Untranslated('%s is not bound once at module level' % node.id)
+        return eval_seq(assigns[node.id], assigns, depth + 1)
+    if isinstance(node, ast.BinOp) and isinstance(node.op, ast.Add):
+        return eval_seq(node.left, assigns, depth + 1) + eval_seq(node.right, assigns, depth + 1)
+    if isinstance(node, ast.Call) and isinstance(node.func, ast.Name) and node.func.id in ('tuple', 'list') \
+            and len(node.args) == 1 and not node.keywords:
+        return eval_seq(node.args[0], assigns, depth + 1)
+    if isinstance(node, (ast.GeneratorExp, ast.ListComp)) and len(node.generators) == 1:
+        g = node.generators[0]
+        if g.ifs or g.is_async:
+            raise Untranslated('comprehension with a condition')
+        items = eval_seq(g.iter, assigns, depth + 1)
+        out = []
+        for it in items:
+            if isinstance(g.target, ast.Name):
+                env = {g.target.id: it}
+            elif isinstance(g.target, ast.Tuple) and all(isinstance(t, ast.Name) for t in g.target.elts) \
+                    and isinstance(it, (ast.Tuple, ast.List)) and len(it.elts) == len(g.target.elts):
+                env = dict(zip([t.id for t in g.target.elts], it.elts))
+            else:
+                raise Untranslated('comprehension target does not match the items')
+            out.append(_Subst(env).visit(copy.deepcopy(node.elt)))
+        return out
+    raise Untranslated('%s is not a statically evaluable sequence' % type(node).__name__)
+
+
+def module_assigns(tree):
+    """name -> value for names assigned exactly once at module level (None when assigned several times)"""
+    out = {}
+    for st in tree.body:
+        if isinstance(st, ast.Assign):
+            for t in st.targets:
+                if isinstance(t, ast.Name):
+                    out[t.id] = None if t.id in out else st.value
+        elif isinstance(st, (ast.AugAssign, ast.AnnAssign)) and isinstance(st.target, ast.Name):
+            out[st.target.id] = None
+    return out
+
+
 def strip_doc(body):
     return [st for st in body if not (isinstance(st, ast.Expr) and isinstance(st.value, ast.Constant))]
 
@@ -104,21 +213,21 @@ def bind_call(f, call):
     return env
 
 
-def resolve_handler(node, funcs):
+def resolve_handler(node, funcs, nparams=2, what='(ipmi, args)'):
     """the function a COMMANDS entry names, as (kind, name, params, body-nodes) or an error string:
        lambda i, a: <expr>  |  <module-level def>  |  <factory>('<literal>', ...) where the module-level def
        <factory> is `def f(p...): def h(ipmi, args): ...; return h` or `def f(p...): return lambda i, a: ...`
        (the factory's parameters are replaced by the literal arguments, getattr(x, '<name>') becomes x.<name>)"""
     if isinstance(node, ast.Lambda):
-        if len(node.args.args) != 2:
-            return 'lambda does not take (ipmi, args)'
+        if len(node.args.args) != nparams:
+            return 'lambda does not take %s' % what
         return ('HLambda', None, [x.arg for x in node.args.args], [node.body])
     if isinstance(node, ast.Name):
         if node.id not in funcs:
             return 'handler %s is not a module-level def' % node.id
         f = funcs[node.id]
-        if len(f.args.args) != 2 or f.args.vararg or f.args.kwarg:
-            return '%s does not take (ipmi, args)' % node.id
+        if len(f.args.args) != nparams or f.args.vararg or f.args.kwarg:
+            return '%s does not take %s' % (node.id, what)
         return ('HDef', node.id, [x.arg for x in f.args.args], f.body)
     if isinstance(node, ast.Call) and isinstance(node.func, ast.Name) and node.func.id in funcs \
             and all(isinstance(x, ast.Constant) for x in node.args) \
@@ -134,7 +243,7 @@ def resolve_handler(node, funcs):
             inner = body[0]
         elif len(body) == 1 and isinstance(body[0], ast.Return) and isinstance(body[0].value, ast.Lambda):
             inner = body[0].value
-        if inner is None or len(inner.args.args) != 2 or inner.args.vararg or inner.args.kwarg \
+        if inner is None or len(inner.args.args) != nparams or inner.args.vararg or inner.args.kwarg \
                 or any(x.arg in env for x in inner.args.args):
             return 'factory %s is not `def h(ipmi, args): ...; return h` / `return lambda i, a: ...`' % node.func.id
         inner = _Getattr().visit(_Subst(env).visit(copy.deepcopy(inner)))
@@ -355,22 +464,27 @@ def tr_callspec(node, funcs):
 
 
 def tr_commands(tree, funcs):
-    node = None
-    for st in tree.body:
-        if isinstance(st, ast.Assign) and len(st.targets) == 1 and isinstance(st.targets[0], ast.Name) \
-                and st.targets[0].id == 'COMMANDS':
-            node = st.value
-    if not isinstance(node, (ast.Tuple, ast.List)):
-        return ['mkCmd "" (HUntranslated "COMMANDS is not a tuple literal")'], []
+    assigns = module_assigns(tree)
+    if assigns.get('COMMANDS') is None:
+        return ['mkCmd "" (HUntranslated "COMMANDS is not assigned exactly once at module level")'], []
+    try:
+        elts = eval_seq(assigns['COMMANDS'], assigns)
+    except Untranslated as e:
+        return ['mkCmd "" (HUntranslated %s)' % q('COMMANDS: %s' % e)], []
     out, names = [], []
-    for e in node.elts:
-        if not (isinstance(e, ast.Call) and isinstance(e.func, ast.Name) and e.func.id == 'Command'
-                and len(e.args) == 2 and not e.keywords and isinstance(e.args[0], ast.Constant)
-                and isinstance(e.args[0].value, str)):
-            out.append('mkCmd "" (HUntranslated %s)' % q('entry at line %d is not Command(<str>, <handler>)' % e.lineno))
+    for e in elts:
+        name = handler = None
+        if isinstance(e, ast.Call) and isinstance(e.func, ast.Name) and e.func.id == 'Command':
+            pos = list(e.args)
+            kw = {k.arg: k.value for k in e.keywords}
+            if len(pos) + len(kw) == 2 and not any(isinstance(x, ast.Starred) for x in pos) and None not in kw:
+                name = pos[0] if len(pos) >= 1 else kw.get('name')
+                handler = pos[1] if len(pos) == 2 else kw.get('fn')
+        if not (isinstance(name, ast.Constant) and isinstance(name.value, str)) or handler is None:
+            out.append('mkCmd "" (HUntranslated %s)' % q('entry at line %d is not Command(<str>, <handler>)' % getattr(e, 'lineno', 0)))
             continue
-        names.append((e.args[0].value, e.args[1]))
-        out.append('mkCmd %s (%s)' % (q(e.args[0].value), tr_handler(e.args[1], funcs)))
+        names.append((name.value, handler))
+        out.append('mkCmd %s (%s)' % (q(name.value), tr_handler(handler, funcs)))
     return out, names
 
 
@@ -448,26 +562,26 @@ def var_roles(fn, funcs=None, depth=0):
             if d is None:
                 continue
             for suffix, pos, role in SINKS:
-                if (d == suffix or d.endswith('.' + suffix)) and pos < len(n.args) and isinstance(n.args[pos], ast.Name):
-                    roles.setdefault(n.args[pos].id, set()).add(role)
+                if (d == suffix or d.endswith('.' + suffix)) and pos < len(n.args) and vkey(n.args[pos]) is not None:
+                    roles.setdefault(vkey(n.args[pos]), set()).add(role)
             if d.endswith('setLevel'):
                 for a in n.args:
-                    if isinstance(a, ast.IfExp) and isinstance(a.test, ast.Name):
-                        roles.setdefault(a.test.id, set()).add('verbose')
+                    if isinstance(a, ast.IfExp) and vkey(a.test) is not None:
+                        roles.setdefault(vkey(a.test), set()).add('verbose')
             if isinstance(n.func, ast.Name) and n.func.id in funcs and depth < 3 and funcs[n.func.id] is not fn:
                 callee = funcs[n.func.id]
                 inner = var_roles(callee, funcs, depth + 1)
                 env = bind_call(callee, n)
                 for prm, arg in (env or {}).items():
-                    if isinstance(arg, ast.Name) and prm in inner:
+                    if vkey(arg) is not None and prm in inner:
                         # only sinks that identify a role on their own
                         keep = set(r for r in inner[prm] if r != 'verbose' or callee.name not in ('usage',))
-                        roles.setdefault(arg.id, set()).update(keep)
+                        roles.setdefault(vkey(arg), set()).update(keep)
         # `if verbose:` guarding handler.setLevel(logging.DEBUG)
-        if isinstance(n, ast.If) and isinstance(n.test, ast.Name):
+        if isinstance(n, ast.If) and vkey(n.test) is not None:
             for c in ast.walk(n):
                 if isinstance(c, ast.Call) and dotted(c.func) and dotted(c.func).endswith('setLevel'):
-                    roles.setdefault(n.test.id, set()).add('verbose')
+                    roles.setdefault(vkey(n.test), set()).add('verbose')
     return roles
 
 
@@ -548,74 +662,149 @@ def tr_options(main, funcs=None):
                 and a[0].slice.lower.value == 1 and a[0].slice.upper is None):
             short = 'None'
     # the for-loop over the options
+    funcs = funcs or {}
     loop = None
     for n in main.body:
         if isinstance(n, ast.For) and isinstance(n.target, ast.Tuple) and len(n.target.elts) == 2 \
-                and isinstance(n.iter, ast.Name) and n.iter.id == 'opts':
+                and all(isinstance(t, ast.Name) for t in n.target.elts) \
+                and isinstance(n.iter, ast.Name) and n.iter.id == 'opts' and not n.orelse:
             loop = n
     entries, defaults = [], []
-    if loop is None or len(loop.body) != 1 or not isinstance(loop.body[0], ast.If):
-        return short, longs, ['mkOpt "" (AUntranslated "no `for o, a in opts: if ...` loop in main")'], defaults
+    if loop is None:
+        return short, longs, ['mkOpt "" (AUntranslated "no `for o, a in opts:` loop in main")'], defaults
     optvar, optarg = loop.target.elts[0].id, loop.target.elts[1].id
     roles = var_roles(main, funcs)
     globals_declared = set()
     for n in ast.walk(main):
         if isinstance(n, ast.Global):
             globals_declared.update(n.names)
-    node = loop.body[0]
-    while node is not None:
-        t = node.test
-        if not (isinstance(t, ast.Compare) and len(t.ops) == 1 and isinstance(t.ops[0], ast.Eq)
-                and isinstance(t.left, ast.Name) and t.left.id == optvar
-                and isinstance(t.comparators[0], ast.Constant) and isinstance(t.comparators[0].value, str)):
-            entries.append('mkOpt "" (AUntranslated %s)' % q('test at line %d is not `o == <str>`' % node.lineno))
-        else:
-            flag = t.comparators[0].value
-            body = [s for s in node.body if not isinstance(s, ast.Global)]
-            act = None
-            if len(body) == 1 and isinstance(body[0], ast.Assign) and len(body[0].targets) == 1 \
-                    and isinstance(body[0].targets[0], ast.Name):
-                conv = tr_conv(body[0].value, optarg)
-                if conv is not None:
-                    act = 'AStore %s (%s)' % (q(role_of(body[0].targets[0].id, roles, globals_declared)), conv)
-            elif len(body) == 2 and all(isinstance(s, ast.Expr) and isinstance(s.value, ast.Call) for s in body) \
-                    and isinstance(body[0].value.func, ast.Name) and body[0].value.func.id in ('usage', 'version') \
-                    and not body[0].value.args and not body[0].value.keywords:
-                code = exit_code_of(body[1].value)
-                if code is not None:
-                    act = 'AExit %s (%d)%%Z' % (q(body[0].value.func.id), code)
-            entries.append('mkOpt %s (%s)' % (q(flag), act or 'AUntranslated %s' % q('body at line %d outside the fragment' % node.lineno)))
-        nxt = node.orelse
-        if len(nxt) == 1 and isinstance(nxt[0], ast.If):
-            node = nxt[0]
-        else:
-            # final else must be the `assert False`
-            if not (len(nxt) == 1 and isinstance(nxt[0], ast.Assert) and isinstance(nxt[0].test, ast.Constant)
-                    and nxt[0].test.value is False) and nxt:
-                entries.append('mkOpt "" (AUntranslated "final else is not `assert False`")')
-            node = None
-    # defaults: simple constant assignments in main before the loop
+
+    def tr_branch(body, where):
+        """what one option does: the statements executed for it, in main's own names"""
+        gl = set(globals_declared)
+        for st in body:
+            if isinstance(st, ast.Global):
+                gl.update(st.names)
+        body = [_Setattr().visit(x) for x in inline_stmts([st for st in body if not isinstance(st, ast.Global)], funcs)]
+        if len(body) == 1 and isinstance(body[0], ast.Assign) and len(body[0].targets) == 1 \
+                and vkey(body[0].targets[0]) is not None:
+            conv = tr_conv(body[0].value, optarg)
+            if conv is not None:
+                role = role_of(vkey(body[0].targets[0]), roles, gl)
+                if role.startswith(('unknown:', 'ambiguous:')):
+                    return 'AUntranslated %s' % q('where the value of %s goes was not identified' % role.split(':', 1)[1])
+                return 'AStore %s (%s)' % (q(role), conv)
+        elif len(body) == 2 and all(isinstance(x, ast.Expr) and isinstance(x.value, ast.Call) for x in body) \
+                and isinstance(body[0].value.func, ast.Name) and body[0].value.func.id in ('usage', 'version') \
+                and not body[0].value.args and not body[0].value.keywords:
+            code = exit_code_of(body[1].value)
+            if code is not None:
+                return 'AExit %s (%d)%%Z' % (q(body[0].value.func.id), code)
+        return 'AUntranslated %s' % q('%s outside the fragment' % where)
+
+    lbody = [st for st in loop.body]
+    if len(lbody) == 1 and isinstance(lbody[0], ast.If):
+        # ---- shape 1: if o == '-x': ... elif ...: ... else: assert False
+        node = lbody[0]
+        while node is not None:
+            t = node.test
+            if not (isinstance(t, ast.Compare) and len(t.ops) == 1 and isinstance(t.ops[0], ast.Eq)
+                    and isinstance(t.left, ast.Name) and t.left.id == optvar
+                    and isinstance(t.comparators[0], ast.Constant) and isinstance(t.comparators[0].value, str)):
+                entries.append('mkOpt "" (AUntranslated %s)' % q('test at line %d is not `o == <str>`' % node.lineno))
+            else:
+                entries.append('mkOpt %s (%s)' % (q(t.comparators[0].value), tr_branch(node.body, 'body at line %d' % node.lineno)))
+            nxt = node.orelse
+            if len(nxt) == 1 and isinstance(nxt[0], ast.If):
+                node = nxt[0]
+            else:
+                if not (len(nxt) == 1 and isinstance(nxt[0], ast.Assert) and isinstance(nxt[0].test, ast.Constant)
+                        and nxt[0].test.value is False) and nxt:
+                    entries.append('mkOpt "" (AUntranslated "final else is not `assert False`")')
+                node = None
+    else:
+        # ---- shape 2: dispatch through a module-level dict literal  {'-x': <setter>, ...}:
+        #        f = D.get(o) | D[o] ; [assert f is not None] ; f(<settings>, a)      or   D[o](<settings>, a)
+        tree_assigns = funcs.get('__assigns__', {})
+        stmts = [st for st in lbody if not isinstance(st, ast.Assert)]
+        table = call = None
+        fvar = None
+
+        def lookup_of(e):
+            if isinstance(e, ast.Subscript) and isinstance(e.value, ast.Name) and isinstance(e.slice, ast.Name) \
+                    and e.slice.id == optvar:
+                return e.value.id
+            if isinstance(e, ast.Call) and isinstance(e.func, ast.Attribute) and e.func.attr == 'get' \
+                    and isinstance(e.func.value, ast.Name) and len(e.args) == 1 and not e.keywords \
+                    and isinstance(e.args[0], ast.Name) and e.args[0].id == optvar:
+                return e.func.value.id
+            return None
+        if len(stmts) == 2 and isinstance(stmts[0], ast.Assign) and len(stmts[0].targets) == 1 \
+                and isinstance(stmts[0].targets[0], ast.Name) and lookup_of(stmts[0].value) \
+                and isinstance(stmts[1], ast.Expr) and isinstance(stmts[1].value, ast.Call) \
+                and isinstance(stmts[1].value.func, ast.Name) and stmts[1].value.func.id == stmts[0].targets[0].id:
+            table, call = lookup_of(stmts[0].value), stmts[1].value
+        elif len(stmts) == 1 and isinstance(stmts[0], ast.Expr) and isinstance(stmts[0].value, ast.Call) \
+                and lookup_of(stmts[0].value.func):
+            table, call = lookup_of(stmts[0].value.func), stmts[0].value
+        d = tree_assigns.get(table) if table else None
+        if call is None or not isinstance(d, ast.Dict) or call.keywords or any(isinstance(x, ast.Starred) for x in call.args) \
+                or not all(isinstance(k, ast.Constant) and isinstance(k.value, str) for k in d.keys):
+            return short, longs, ['mkOpt "" (AUntranslated "option loop is neither an if/elif chain nor a dict dispatch")'], defaults
+        for k, v in zip(d.keys, d.values):
+            r = resolve_handler(v, funcs, nparams=len(call.args), what='the %d arguments of the dispatch call' % len(call.args))
+            if isinstance(r, str):
+                entries.append('mkOpt %s (AUntranslated %s)' % (q(k.value), q(r)))
+                continue
+            kind, name, params, body = r
+            if kind == 'HLambda':
+                body = [ast.copy_location(ast.Expr(value=body[0]), body[0])]
+            env = dict(zip(params, call.args))
+            stored = [n.id for st in body for n in ast.walk(st) if isinstance(n, ast.Name) and isinstance(n.ctx, ast.Store)]
+            if any(x in env for x in stored):
+                entries.append('mkOpt %s (AUntranslated "setter re-assigns a parameter")' % q(k.value))
+                continue
+            body = [_Subst(env).visit(copy.deepcopy(st)) for st in strip_doc(body)]
+            for st in body:
+                ast.fix_missing_locations(st)
+            entries.append('mkOpt %s (%s)' % (q(k.value), tr_branch(body, 'setter of %s' % k.value)))
+
+    # defaults: constant assignments in main before the loop; `X = <Class>()` takes them from
+    # `self.<attr> = <const>` in the module-level class's __init__(self)
+    def tr_default(v, label):
+        if isinstance(v, ast.Constant) and isinstance(v.value, bool):
+            return 'DBool %s' % ('true' if v.value else 'false')
+        if isinstance(v, ast.Constant) and isinstance(v.value, int):
+            return 'DInt (%d)%%Z' % v.value
+        if isinstance(v, ast.Constant) and isinstance(v.value, str):
+            return 'DStr %s' % q(v.value)
+        if isinstance(v, ast.Constant) and v.value is None:
+            return 'DNone'
+        if isinstance(v, ast.Call) and isinstance(v.func, ast.Name) and v.func.id in ('list', 'dict') and not v.args:
+            return 'DEmpty'
+        if isinstance(v, (ast.List, ast.Dict)) and not (getattr(v, 'elts', None) or getattr(v, 'keys', None)):
+            return 'DEmpty'
+        return 'DUntranslated %s' % q('default of %s' % label)
+    classes = funcs.get('__classes__', {})
     for st in main.body:
         if st is loop:
             break
         if isinstance(st, ast.Assign) and len(st.targets) == 1 and isinstance(st.targets[0], ast.Name):
-            role = role_of(st.targets[0].id, roles, globals_declared)
+            var = st.targets[0].id
             v = st.value
-            if isinstance(v, ast.Constant) and isinstance(v.value, bool):
-                d = 'DBool %s' % ('true' if v.value else 'false')
-            elif isinstance(v, ast.Constant) and isinstance(v.value, int):
-                d = 'DInt (%d)%%Z' % v.value
-            elif isinstance(v, ast.Constant) and isinstance(v.value, str):
-                d = 'DStr %s' % q(v.value)
-            elif isinstance(v, ast.Constant) and v.value is None:
-                d = 'DNone'
-            elif isinstance(v, ast.Call) and isinstance(v.func, ast.Name) and v.func.id in ('list', 'dict') and not v.args:
-                d = 'DEmpty'
-            elif isinstance(v, (ast.List, ast.Dict)) and not (getattr(v, 'elts', None) or getattr(v, 'keys', None)):
-                d = 'DEmpty'
-            else:
-                d = 'DUntranslated %s' % q('default of %s' % st.targets[0].id)
-            defaults.append('(%s, %s)' % (q(role), d))
+            if isinstance(v, ast.Call) and isinstance(v.func, ast.Name) and v.func.id in classes and not v.args and not v.keywords:
+                init = [f for f in classes[v.func.id].body if isinstance(f, ast.FunctionDef) and f.name == '__init__']
+                if len(init) == 1 and len(init[0].args.args) == 1:
+                    me = init[0].args.args[0].arg
+                    for ist in strip_doc(init[0].body):
+                        if isinstance(ist, ast.Assign) and len(ist.targets) == 1 and isinstance(ist.targets[0], ast.Attribute) \
+                                and isinstance(ist.targets[0].value, ast.Name) and ist.targets[0].value.id == me:
+                            key = var + '.' + ist.targets[0].attr
+                            defaults.append('(%s, %s)' % (q(role_of(key, roles, globals_declared)), tr_default(ist.value, key)))
+                        else:
+                            defaults.append('("", DUntranslated %s)' % q('statement in %s.__init__' % v.func.id))
+                    continue
+            defaults.append('(%s, %s)' % (q(role_of(var, roles, globals_declared)), tr_default(v, var)))
     return short, longs, entries, defaults
 
 
@@ -657,7 +846,7 @@ def tr_exits(main, funcs=None):
                         bad = 'sys.exit argument outside the fragment'
                 else:
                     bad = 'statement outside the fragment (line %d)' % s.lineno
-            elif isinstance(s, ast.If) and isinstance(s.test, ast.Name) and len(s.body) == 1 and not s.orelse \
+            elif isinstance(s, ast.If) and vkey(s.test) is not None and len(s.body) == 1 and not s.orelse \
                     and isinstance(s.body[0], ast.Expr) and isinstance(s.body[0].value, ast.Call) \
                     and dotted(s.body[0].value.func) == 'traceback.print_exc':
                 pass                                   # if verbose: traceback.print_exc()
@@ -833,8 +1022,11 @@ def generate(repo):
     assert os.path.realpath(pyipmi.__file__).startswith(os.path.realpath(repo)), pyipmi.__file__
     path = os.path.join(repo, 'pyipmi', 'ipmitool.py')
     tree = _Getattr().visit(ast.parse(open(path).read()))
+    tree = _InlineExpr(expr_helpers(tree)).visit(tree)
     ast.fix_missing_locations(tree)
     funcs = {st.name: st for st in tree.body if isinstance(st, ast.FunctionDef)}
+    funcs['__assigns__'] = module_assigns(tree)
+    funcs['__classes__'] = {st.name: st for st in tree.body if isinstance(st, ast.ClassDef)}
     cmds, names = tr_commands(tree, funcs)
     api = tr_api(pyipmi.Ipmi)
     main = find_main(tree)
